@@ -14,7 +14,11 @@
 
    A task is (id, early): early = it was handed over (a worker was spawned for it, or it entered the queue) before Stop.
    A task taken by a worker or by the dispatcher counts as started from that moment (an over-approximation of the time
-   it really runs, which is what the bound needs). *)
+   it really runs, which is what the bound needs).
+   A nil task (Go(nil)) is a task that does nothing: a worker or the dispatcher's fork takes it like any other task and it
+   ends at once (the worker's call panics and is recovered inside the caller, the deferred decrement gives the slot back:
+   WEnd right after the start); the consumers of the queue take it and skip it (WPoll / DRecvTask ... followed by WEnd /
+   DEnd). So the model needs no special action for it, and at a quiescent point it has left no trace in c / queue. *)
 From Coq Require Import List ZArith Bool Arith.
 Import ListNotations.
 Open Scope Z_scope.
